@@ -7,6 +7,7 @@ import (
 	"errors"
 	"fmt"
 	"net/url"
+	"sort"
 	"strconv"
 	"strings"
 	"time"
@@ -104,7 +105,13 @@ func (c *config) Decode(b []byte) error {
 }
 
 func (c *config) update(changes *config2.StringMap) error {
-	for key, value := range changes.Fields {
+	keys := make([]string, 0, len(changes.Fields))
+	for key := range changes.Fields {
+		keys = append(keys, key)
+	}
+	sort.Strings(keys)
+	for _, key := range keys {
+		value := changes.Fields[key]
 		switch key {
 		case Settings[MinLock]:
 			if sbValue, err := strconv.ParseFloat(value, 64); err != nil {
@@ -154,7 +161,9 @@ func (c *config) update(changes *config2.StringMap) error {
 			}
 
 		default:
-			return c.setCostValue(key, value)
+			if err := c.setCostValue(key, value); err != nil {
+				return err
+			}
 		}
 	}
 	return nil
@@ -229,6 +238,10 @@ func (vsc *VestingSmartContract) updateConfig(
 	}
 
 	if err := conf.update(update); err != nil {
+		return "", common.NewError("update_config", err.Error())
+	}
+
+	if err := conf.validate(); err != nil {
 		return "", common.NewError("update_config", err.Error())
 	}
 
